@@ -366,7 +366,7 @@ def replay_case(pid, path):
         return 1
     prop = load_prop(pid)
     srcgen(pid)
-    with Lock("coq"):
+    with Lock("coq-" + pid):
         coq_make(pid, theory_files(pid, prop))
     mism, specf, err = eval_cases(pid, [c])
     print(json.dumps(c.get("desc"), indent=1)[:3000])
@@ -424,8 +424,17 @@ def check(pid, tier, replay=None):
     gate = gate_forbidden(files)
     if gate:
         broken.append(("gate", "forbidden-construct", "; ".join(gate)))
-    with Lock("coq"):
-        rc, out, make_cmd = coq_make(pid, files)
+    common = [f for f in files if f.startswith("theories/Common/")]
+    with Lock("coq-common"):
+        coq_make("Common", common, timeout=600)
+    locks = [Lock("coq-" + d) for d in sorted(set(prop["deps"] + [pid]))]
+    for l in locks:
+        l.__enter__()
+    try:
+        rc, out, make_cmd = coq_make(pid, files, timeout=int(prop.get("coq_timeout", 1500)))
+    finally:
+        for l in reversed(locks):
+            l.__exit__()
     model_ok = os.path.exists(os.path.join(COQ, "theories", pid, "Run.vo"))
     if rc != 0:
         errs = parse_coq_errors(out)
@@ -445,7 +454,7 @@ def check(pid, tier, replay=None):
     glem = gen_lemmas(pid)
     chk_out = None
     if rc == 0 and tier == "thorough" and os.environ.get("VERIF_NO_COQCHK") != "1":
-        with Lock("coq"):
+        with Lock("coq-" + pid):
             crc, chk_out = coqchk(pid, prop, files)
         if crc != 0:
             broken.append(("coq", "coqchk", chk_out[-1200:]))
